@@ -703,6 +703,37 @@ func gen(r *vh.Rand, tier string) []string {
 		}
 		out = append(out, line)
 	}
+	// samples through the real phout aggregator (recycled sample objects): failures and answered requests mixed
+	for i := 0; i < nEng/5; i++ {
+		gun := r.Pick([]string{"http", "http", "scenario"})
+		n, iters := r.Range(4, 10), 1
+		if gun == "scenario" {
+			n, iters = r.Range(2, 5), r.Range(2, 4)
+		}
+		line := fmt.Sprintf("eng %s %s %d 0 o1%s %d %d", gun, vh.B(r.Chance(2, 3)), r.Range(1, 2), genOpts(r), iters, n)
+		for j := 0; j < n; j++ {
+			line += " " + fastStep(r, gun == "scenario")
+		}
+		out = append(out, line)
+	}
+	// tunnel endpoints that reject the CONNECT with a body they never finish (and keep the connection open)
+	for i := 0; i < nEng/15; i++ {
+		n := r.Range(2, 5)
+		line := fmt.Sprintf("eng connect 0 1 0 %s 1 %d", genOpts(r), n)
+		at := r.Intn(n)
+		for j := 0; j < n; j++ {
+			switch {
+			case j == at || r.Chance(1, 5):
+				line += fmt.Sprintf(" %s proto 0 0 - - - - -", r.Pick([]string{"tunrejbody", "tunrejchunk"}))
+			case r.Chance(1, 4):
+				line += " tun403 proto 0 0 - - - - -"
+			default:
+				status := r.PickInt([]int{200, 200, 404, 503})
+				line += fmt.Sprintf(" status ok %d 1 %s - - - -", status, vh.HexS("ok"))
+			}
+		}
+		out = append(out, line)
+	}
 	// grpc/scenario gun against a scripted target
 	for i := 0; i < nEng/3; i++ {
 		out = append(out, genGscn(r))
